@@ -39,6 +39,19 @@ CLAIMED['C05'] = dict(
   note='Trusted: Condition(self.lock) aliasing, with-statement semantics, constructor results are truthy (flag refinement). '
        'Does not explore thread schedules or histories.',
   technique='CFG dominance / path-sensitive reachability + lock sets + finite evaluation of extracted arithmetic (ast)')
+CLAIMED['C09'] = dict(
+  category='other',
+  text='Decides, for every path and every wait site, the structural conditions without which a thread can be left blocked: terminate() reaches '
+       'the SAP shutdown on every exit including exceptional ones (exception-escape analysis feeding the CFG); every exception class that can '
+       'leave the run-loop bodies meets a handler that terminates the link; close()/shutdown() notify_all() every Condition under the lock and '
+       'set the state the waiters re-test; every untimed wait() sits in a locked region in which the shutdown state was tested (in the function '
+       'or in every caller holding the re-entrant lock), loops around waits re-test it, callers map the IndexError of a closed socket; SAP table '
+       'dereferences from application threads are None-tested under the lock; service threads catch nfc.llcp.Error and close their sockets. '
+       'Bounded time and enumeration of schedules are not decided.',
+  design_ref='DESIGN.md section 3 C09',
+  note='Assume/guarantee: ContactlessFrontend.exchange raises only CommunicationError subclasses or IOError (C13). Trusted: RLock re-entrancy, '
+       'Condition.wait releases the lock. 10 infeasible may-raise reports are suppressed one by one in nfcsa/rules/c09.py with anchor-checked reasons.',
+  technique='exception-escape analysis + CFG must-pass-through + lock-region wait discipline (ast)')
 NA_REASON = {}
 def main():
     checks = []
